@@ -223,6 +223,60 @@ func TestC05(t *testing.T) {
 					}
 				}
 			}
+			// histories: several range requests on ONE reader; every request on its own
+			// may fetch only what its range needs, whatever the reader did before
+			if n >= 2 {
+				rr := c.Rand()
+				for h := 0; h < 60; h++ {
+					node, rerr := ls.KnownReifiers["unixfs"](ipld.LinkContext{Ctx: bg}, raw, ls)
+					if rerr != nil {
+						break
+					}
+					rs, err := node.(largeBytes).AsLargeBytes()
+					if err != nil {
+						break
+					}
+					pos := int64(0)
+					for step := 0; step < 2+rr.Intn(4); step++ {
+						a := int64(rr.Intn(int(n)))
+						if rr.Intn(3) == 0 {
+							a = f.Boundaries[rr.Intn(len(f.Boundaries))]
+							if a >= n {
+								a = n - 1
+							}
+						}
+						b := a + 1 + int64(rr.Intn(int(n-a)))
+						st.ResetLog()
+						var got []byte
+						var gerr error
+						what := ""
+						c.Guard("history step", func() {
+							switch rr.Intn(3) {
+							case 0:
+								what = fmt.Sprintf("step %d: Seek(%d,Start)+ReadFull(%d) after position %d", step, a, b-a, pos)
+								_, gerr = rs.Seek(a, io.SeekStart)
+							case 1:
+								what = fmt.Sprintf("step %d: Seek(%d,Current)+ReadFull(%d) from position %d", step, a-pos, b-a, pos)
+								_, gerr = rs.Seek(a-pos, io.SeekCurrent)
+							default:
+								what = fmt.Sprintf("step %d: Seek(%d,End)+ReadFull(%d) after position %d", step, a-n, b-a, pos)
+								_, gerr = rs.Seek(a-n, io.SeekEnd)
+							}
+							if gerr == nil {
+								got = make([]byte, b-a)
+								_, gerr = io.ReadFull(rs, got)
+							}
+						})
+						if gerr != nil || !bytes.Equal(got, f.Content[a:b]) {
+							c.Violation("C05|wrong-bytes", "%s on %s returned %d bytes err=%v", what, f.Name, len(got), gerr)
+							break
+						}
+						pos = b
+						c.Count("history_steps", 1)
+						checkSubset(c, "C05|file-overfetch|history", what+" on "+f.Name, st.ReadCids(), allowedFor(spans, f.Root, a, b))
+					}
+				}
+			}
 			depth, spine, _ := shapeOf(walkerFor(f.St), f.Root)
 			c.Sig(fmt.Sprintf("file|%s|d%d|spine%v|exh=%v", strings.Split(f.Name, "-")[0], depth, spine, exhaustive), blocks >= 2)
 			c.Sample(map[string]any{"fixture": f.Name, "ranges": len(ranges), "exhaustive": exhaustive, "blocks": blocks})
